@@ -752,3 +752,101 @@ def row_nonempty(s: S, assume, sign=+1, residual=None, depth=0):
                     return True
         return False
     return kleene(s, assume, sign) is True
+
+
+# ----------------------------------------------------------------------------- polarity (monotonicity) analysis
+
+MONO_INC_METH = {"gather", "sum", "mean", "max", "min", "amax", "amin", "cumsum", "clamp", "clip", "relu", "values", "squeeze", "unsqueeze", "reshape", "view",
+                 "expand", "expand_as", "float", "int", "long", "to", "clone", "contiguous", "masked_fill", "scatter", "scatter_", "transpose", "permute"}
+MONO_INC_FN = {"torch.max", "torch.min", "torch.clamp", "torch.maximum", "torch.minimum", "torch.sum", "torch.cat", "torch.stack"}
+DIST_FN = {"rl4co.utils.ops:get_distance", "rl4co.utils.ops:get_tour_length"}
+
+
+def polarity(s: S, sign: int = +1, out: Optional[dict] = None, depth: int = 0) -> dict:
+    """For every TD cell / parameter the value depends on *arithmetically*: the set of signs with
+    which it enters (+1: the value does not decrease when the cell increases, -1: does not
+    increase), assuming the other factors of each product are non-negative (indicator factors,
+    distances, demands).  Distances / norms are treated as opaque non-negative quantities
+    ('|dist|'); comparisons (indicator factors) are not descended into."""
+    if out is None:
+        out = {}
+    if depth > 60 or not isinstance(s, S):
+        return out
+    s = strip(s)
+    o, a = s.op, s.args
+    d = depth + 1
+
+    def rec(x, sg):
+        polarity(x, sg, out, d)
+
+    if o in ("cell0", "get0"):
+        out.setdefault(a[1], set()).add(sign)
+        return out
+    if o == "param":
+        out.setdefault("param:" + a[0], set()).add(sign)
+        return out
+    if o in ("const", "selfattr", "global", "ext", "cmp") or o in CMP_OPS:
+        return out
+    if o in ARITH or o == "poly":
+        p = poly(s)
+        for c, fs in p.monos():
+            sg = sign if c > 0 else -sign
+            for at, _ in fs:
+                if at.op in ("cmp",) or at.op in CMP_OPS:
+                    continue
+                rec(at, sg)
+        return out
+    if o == "recip":
+        rec(a[0], -sign)
+        return out
+    if o in ("phi", "ifexp"):
+        rec(a[1], sign)
+        rec(a[2], sign)
+        return out
+    if o in ("loop", "store"):
+        rec(a[0], sign)
+        rec(a[-1] if o == "store" else a[1], sign)
+        return out
+    if o == "loopvar":
+        rec(a[1], sign)
+        b = _vg.LOOP_BODY.get(s.id)
+        return out
+    if o == "sub":
+        rec(a[0], sign)
+        return out
+    fn = _fn(s)
+    if fn in DIST_FN or (o == "meth" and a[1] == "norm"):
+        out.setdefault("|dist|", set()).add(sign)
+        return out
+    if fn is not None and fn.endswith(":gather_by_index"):
+        src = [x for x in a[1:] if isinstance(x, S) and x.op == "kw" and x.args[0] == "src"]
+        rec(src[0].args[1] if src else a[1], sign)
+        return out
+    if fn == "torch.where" and len(a) == 4:
+        rec(a[2], sign)
+        rec(a[3], sign)
+        return out
+    if fn in MONO_INC_FN:
+        for x in a[1:]:
+            if isinstance(x, S) and x.op not in ("kw", "const"):
+                if x.op in ("tuple", "list"):
+                    for y in x.args:
+                        rec(y, sign)
+                else:
+                    rec(x, sign)
+        return out
+    if o == "meth" and a[1] in ("scatter_add", "scatter_add_") and len(a) >= 5:
+        rec(a[0], sign)
+        rec(a[4], sign)
+        return out
+    if o == "meth" and a[1] in MONO_INC_METH:
+        rec(a[0], sign)
+        if a[1] in ("masked_fill", "scatter", "scatter_") and len(a) >= 4 and isinstance(a[-1], S):
+            rec(a[-1], sign)
+        return out
+    if o == "meth" and a[1] in ("long", "bool"):
+        return out
+    # unknown function: dependence without a known direction
+    for c in _vg.cells_of(s):
+        out.setdefault(c, set()).add(0)
+    return out
